@@ -13,16 +13,16 @@ Proof.
 Qed.
 
 Lemma row_ok_process ref row mgrs r o :
-  p_err_returns ref = true -> p_sends ref = 1%nat ->
+  p_sends ref = 1%nat -> p_rc_err ref = 0%N -> p_rc_ok ref = 1%N ->
   row_ok ref row = true -> process_row row mgrs r o = process_row ref mgrs r o.
 Proof.
-  intros HE HS H. unfold row_ok in H.
+  intros HS HE HO H. unfold row_ok in H.
   repeat (apply andb_true_iff in H; destruct H as [H ?]).
   cbn [forallb] in *.
   repeat match goal with
          | X : _ && _ = true |- _ => apply andb_true_iff in X; destruct X
          | X : (_ =? _)%string = true |- _ => apply String.eqb_eq in X
-         | X : Bool.eqb _ true = true |- _ => apply Bool.eqb_prop in X
+         | X : N.eqb _ _ = true |- _ => apply N.eqb_eq in X
          | X : (_ =? _)%nat = true |- _ => apply Nat.eqb_eq in X
          end.
   unfold process_row.
@@ -30,16 +30,20 @@ Proof.
   reflexivity.
 Qed.
 
+(* how the row registered for a type code treats a manager error *)
+Definition mode_of (d : list (N * proc)) (c : N) : N :=
+  match plookup c d with Some (PPhase2 row) => p_err_mode row | _ => 0%N end.
+
 Lemma wf_rows d :
   wf_dispatch d = true ->
-  (exists rc, plookup 3 d = Some (PPhase2 rc) /\ row_ok commit_row rc = true) /\
-  (exists rr, plookup 5 d = Some (PPhase2 rr) /\ row_ok rollback_row rr = true) /\
+  (exists rc, plookup 3 d = Some (PPhase2 rc) /\ row_ok (commit_row (p_err_mode rc)) rc = true) /\
+  (exists rr, plookup 5 d = Some (PPhase2 rr) /\ row_ok (rollback_row (p_err_mode rr)) rr = true) /\
   (forall c row, plookup c d = Some (PPhase2 row) -> c = 3%N \/ c = 5%N).
 Proof.
   unfold wf_dispatch. intro H. apply andb_true_iff in H. destruct H as [H1 H2].
   destruct (plookup 3 d) as [[rc|]|] eqn:L3; try discriminate.
   destruct (plookup 5 d) as [[rr|]|] eqn:L5; try discriminate.
-  apply andb_true_iff in H1. destruct H1 as [A B].
+  repeat (apply andb_true_iff in H1; destruct H1 as [H1 ?]).
   split; [eauto|]. split; [eauto|].
   intros c row L. apply plookup_in in L. rewrite forallb_forall in H2. specialize (H2 _ L). cbn in H2.
   apply orb_true_iff in H2. destruct H2 as [H2|H2].
@@ -50,35 +54,40 @@ Qed.
 Definition meth_of (code : N) : string := if N.eqb code 3 then "BranchCommit" else "BranchRollback".
 Definition resp_of (code : N) : string := if N.eqb code 3 then "BranchCommitResponse" else "BranchRollbackResponse".
 
+(* silence after a manager error: always (mode 1) or only without a status to report (mode 2) *)
+Definition silent (mode st : N) : bool := N.eqb mode 1 || (N.eqb mode 2 && N.eqb st 0).
+
 (* what a well-formed dispatch does with a request, in closed form *)
-Definition expected (mgrs : list N) (r : req) (o : outcome) : list wev :=
+Definition expected (mode : N) (mgrs : list N) (r : req) (o : outcome) : list wev :=
   if N.eqb (r_code r) 3 || N.eqb (r_code r) 5 then
     if existsb (N.eqb (r_btype r)) mgrs then
       let c := Consult (r_btype r) (meth_of (r_code r)) (VN (r_xid r)) (VZ (r_branch r)) (VN (r_resource r)) (VN (r_data r)) in
       match o with
       | OPanic => [c; Panic]
-      | ORet st true => [c]
-      | ORet st false => [c; Respond (resp_of (r_code r)) (VZ (r_id r)) (VN (r_xid r)) (VZ (r_branch r)) (VN st) 1%N]
+      | ORet st failed =>
+          if failed && silent mode st then [c]
+          else [c; Respond (resp_of (r_code r)) (VZ (r_id r)) (VN (r_xid r)) (VZ (r_branch r)) (VN st)
+                           (if failed then 0 else 1)%N]
       end
     else [Panic]
   else [].
 
 Lemma process_expected d mgrs r o :
-  wf_dispatch d = true -> process d mgrs r o = expected mgrs r o.
+  wf_dispatch d = true -> process d mgrs r o = expected (mode_of d (r_code r)) mgrs r o.
 Proof.
   intro W. destruct (wf_rows d W) as ((rc & L3 & K3) & (rr & L5 & K5) & ONLY).
-  unfold process, expected.
+  unfold process, expected, mode_of.
   destruct (N.eqb (r_code r) 3) eqn:E3; [|destruct (N.eqb (r_code r) 5) eqn:E5].
   - apply N.eqb_eq in E3. rewrite E3, L3. cbn [orb].
-    rewrite (row_ok_process commit_row rc) by (reflexivity || exact K3).
-    unfold process_row, meth_of, resp_of. cbn -[existsb].
+    rewrite (row_ok_process (commit_row (p_err_mode rc)) rc) by (reflexivity || exact K3).
+    unfold process_row, meth_of, resp_of, silent. cbn -[existsb N.eqb andb orb].
     destruct (existsb (N.eqb (r_btype r)) mgrs); [|reflexivity].
-    destruct o as [st [|]|]; reflexivity.
+    destruct o as [st [|]|]; cbn -[N.eqb]; try reflexivity.
   - apply N.eqb_eq in E5. rewrite E5, L5. cbn [orb].
-    rewrite (row_ok_process rollback_row rr) by (reflexivity || exact K5).
-    unfold process_row, meth_of, resp_of. cbn -[existsb].
+    rewrite (row_ok_process (rollback_row (p_err_mode rr)) rr) by (reflexivity || exact K5).
+    unfold process_row, meth_of, resp_of, silent. cbn -[existsb N.eqb andb orb].
     destruct (existsb (N.eqb (r_btype r)) mgrs); [|reflexivity].
-    destruct o as [st [|]|]; reflexivity.
+    destruct o as [st [|]|]; cbn -[N.eqb]; try reflexivity.
   - cbn [orb]. destruct (plookup (r_code r) d) as [[row|nm]|] eqn:L; try reflexivity.
     destruct (ONLY _ _ L) as [X|X]; rewrite X in *; discriminate.
 Qed.
@@ -95,7 +104,8 @@ Proof.
     (destruct (existsb (N.eqb (r_btype r)) mgrs) eqn:EX;
      [|destruct I as [I|[]]; discriminate]);
     assert (C : Consult m meth x b rs dt = Consult (r_btype r) (meth_of (r_code r)) (VN (r_xid r)) (VZ (r_branch r)) (VN (r_resource r)) (VN (r_data r)))
-      by (destruct o as [st [|]|]; cbn in I; intuition congruence);
+      by (destruct o as [st [|]|]; cbn in I;
+          try (destruct (silent (mode_of d (r_code r)) st); cbn in I); intuition congruence);
     inversion C; subst; unfold meth_of; rewrite ?E3, ?E5; cbn;
     repeat split; auto.
   - left. split; [now apply N.eqb_eq|reflexivity].
@@ -115,29 +125,69 @@ Qed.
 
 Definition is_respond (e : wev) : bool := match e with Respond _ _ _ _ _ _ => true | _ => false end.
 
-Theorem no_false_success d mgrs r o :
-  wf_dispatch d = true -> (o = OPanic \/ exists st, o = ORet st true) ->
-  forallb (fun e => negb (is_respond e)) (process d mgrs r o) = true.
-Proof.
-  intros W F. rewrite (process_expected d mgrs r o W). unfold expected.
-  destruct (N.eqb (r_code r) 3 || N.eqb (r_code r) 5); [|reflexivity].
-  destruct (existsb (N.eqb (r_btype r)) mgrs); [|reflexivity].
-  destruct F as [->|[st ->]]; reflexivity.
-Qed.
-
-(* responses are produced only when the manager returned without error, and then with its status *)
+(* every response on the wire: the request's kind, id, xid, branch id, the status the
+   manager returned, and result code Success exactly when the manager did not fail *)
 Theorem respond_only_truthful d mgrs r o resp i x b s rc :
   wf_dispatch d = true -> In (Respond resp i x b s rc) (process d mgrs r o) ->
-  exists st, o = ORet st false /\ s = VN st /\ i = VZ (r_id r) /\ x = VN (r_xid r) /\ b = VZ (r_branch r)
-             /\ resp = resp_of (r_code r) /\ rc = 1%N.
+  exists st failed, o = ORet st failed /\ s = VN st /\ i = VZ (r_id r) /\ x = VN (r_xid r) /\ b = VZ (r_branch r)
+             /\ resp = resp_of (r_code r) /\ rc = (if failed then 0 else 1)%N.
 Proof.
   intros W I. rewrite (process_expected d mgrs r o W) in I. unfold expected in I.
   destruct (N.eqb (r_code r) 3 || N.eqb (r_code r) 5); [|contradiction].
   destruct (existsb (N.eqb (r_btype r)) mgrs); [|destruct I as [I|[]]; discriminate].
-  destruct o as [st [|]|]; cbn in I.
-  - destruct I as [I|[]]; discriminate.
-  - destruct I as [I|[I|[]]]; [discriminate|]. inversion I; subst. exists st. repeat split; reflexivity.
+  destruct o as [st failed|]; cbn in I.
+  - destruct (failed && silent (mode_of d (r_code r)) st); cbn in I.
+    + destruct I as [I|[]]; discriminate.
+    + destruct I as [I|[I|[]]]; [discriminate|]. inversion I; subst. exists st, failed. repeat split; reflexivity.
   - destruct I as [I|[I|[]]]; discriminate.
+Qed.
+
+(* at most one response per request, whatever the manager did *)
+Theorem at_most_one_response d mgrs r o :
+  wf_dispatch d = true -> (length (filter is_respond (process d mgrs r o)) <= 1)%nat.
+Proof.
+  intro W. rewrite (process_expected d mgrs r o W). unfold expected.
+  destruct (N.eqb (r_code r) 3 || N.eqb (r_code r) 5); [|cbn; lia].
+  destruct (existsb (N.eqb (r_btype r)) mgrs); [|cbn; lia].
+  destruct o as [st failed|]; [|cbn; lia].
+  destruct (failed && silent (mode_of d (r_code r)) st); cbn; lia.
+Qed.
+
+(* success statuses of phase two *)
+Definition success_status (s : val) : bool :=
+  match s with VN n => N.eqb n 5 || N.eqb n 8 | _ => false end.
+
+(* the manager failed (an error with a status that is not itself a success status, or a
+   panic): no response says success — neither by its status nor by its result code *)
+Theorem no_false_success d mgrs r o :
+  wf_dispatch d = true ->
+  (o = OPanic \/ exists st, o = ORet st true /\ success_status (VN st) = false) ->
+  forall resp i x b s rc, In (Respond resp i x b s rc) (process d mgrs r o) ->
+    success_status s = false /\ rc = 0%N.
+Proof.
+  intros W F resp i x b s rc I.
+  destruct (respond_only_truthful _ _ _ _ _ _ _ _ _ _ W I) as (st & failed & E & -> & _ & _ & _ & _ & ->).
+  destruct F as [->|(st' & -> & NS)]; [discriminate|]. inversion E; subst. now split.
+Qed.
+
+(* a panicking manager is never answered *)
+Theorem panic_no_response d mgrs r :
+  wf_dispatch d = true -> forallb (fun e => negb (is_respond e)) (process d mgrs r OPanic) = true.
+Proof.
+  intro W. rewrite (process_expected d mgrs r _ W). unfold expected.
+  destruct (N.eqb (r_code r) 3 || N.eqb (r_code r) 5); [|reflexivity].
+  destruct (existsb (N.eqb (r_btype r)) mgrs); reflexivity.
+Qed.
+
+(* the hypothesis on the manager's status is needed where a failure status is passed on
+   (mode 2): a manager that returns an error TOGETHER WITH a success status gets that
+   status reported (with result code Failed) *)
+Lemma false_success_refuted_mode2 :
+  exists r st, success_status (VN st) = true /\
+    In (Respond "BranchCommitResponse" (VZ (r_id r)) (VN (r_xid r)) (VZ (r_branch r)) (VN st) 0%N)
+       (process [(3%N, PPhase2 (commit_row 2)); (5%N, PPhase2 (rollback_row 2))] [1%N] r (ORet st true)).
+Proof.
+  exists (mkReq 3 7 1 100 1 2 0), 5%N. split; [reflexivity|]. vm_compute. right. now left.
 Qed.
 
 (* independence: the events of a request are a function of that request and of its
